@@ -31,6 +31,16 @@ def num(x):
     return float(x) if isinstance(x, str) else x
 
 
+def _fl(x):
+    """Python ints (possibly beyond the float range) as floats."""
+    if isinstance(x, int) and not isinstance(x, bool):
+        try:
+            return float(x)
+        except OverflowError:
+            return math.inf if x > 0 else -math.inf
+    return x
+
+
 def draw_base(rng):
     kind = rng.choice(['uniform', 'uniform', 'gaussian', 'bounded',
                        'bounded'])
@@ -80,6 +90,8 @@ def draw_expr(rng, leaves, depth):
               'ufunc:negative', 'ufunc:sqrt'):
         return {'fn': fn, 'args': [a]}
     if fn == 'pow':
+        if rng.random() < 0.3:
+            return {'fn': 'pow', 'args': [rng.choice([2, 10, 0.5]), a]}
         return {'fn': 'pow', 'args': [a, rng.choice([2, 3])]}
     other = draw_number(rng) if rng.random() < 0.6 else \
         draw_expr(rng, leaves, depth - 1)
@@ -109,6 +121,29 @@ class C14:
                                    store='pr', tags={'k': spec['ctor']}))
                 twins.append((h, pool[-1]))
         derived = []
+        if rng.random() < 0.3:
+            # a whole-number quantity written as Python ints (a count, an
+            # exponent), used as an exponent.  Kept out of the general
+            # expression pool: exact integer arithmetic on nested powers
+            # has no upper bound on its running time.
+            m = rng.choice([rng.randint(-6, -1), rng.randint(1, 30), 64, 20])
+            kind_ = rng.choice(['uniform', 'gaussian', 'bounded_gaussian'])
+            if kind_ == 'uniform':
+                a_ = {'lo': m - 5, 'hi': m + 5, 'guess': m}
+            elif kind_ == 'gaussian':
+                a_ = {'mu': m, 'sd': 1}
+            else:
+                a_ = {'mu': m, 'sd': 1, 'lo': m - 3, 'hi': m + 6}
+            hw = b.emit(kind_, a_, store='ipr', tags={'k': kind_})
+            d_ = b.emit('derive', {'expr': {
+                'fn': 'pow', 'args': [rng.choice([10, 2]), hw]}},
+                store='dpr', tags={'k': 'derive'})
+            b.emit('prior_info', {'pr': d_},
+                   tags={'k': 'guess-derived', 'info': True})
+            b.emit('prior_sample', {'pr': d_, 'size': rng.choice([None, 3]),
+                                    'script': None,
+                                    'seed': rng.randrange(2 ** 31)},
+                   tags={'k': 'sample-derived', 'sample': True})
         for x_, y_ in twins:
             # two equal-looking but separate random variables combined
             h = b.emit('derive', {'expr': {
@@ -609,7 +644,7 @@ class C14:
         with np.errstate(all='ignore'):
             sub = [self._magnitude(a) for a in t['args']]
             try:
-                own = abs(self._ref_guess(t))
+                own = abs(_fl(self._ref_guess(t)))
             except Exception:
                 own = 0.0
         return max(sub + [own if np.isfinite(own) else 0.0])
@@ -639,7 +674,8 @@ class C14:
         try:
             with np.errstate(all='ignore'):
                 ref = self._ref_guess(t)
-            return bool(np.all(np.isfinite(np.asarray(ref, dtype=complex))))
+            return bool(np.all(np.isfinite(np.asarray(_fl(ref),
+                                                      dtype=complex))))
         except (ZeroDivisionError, OverflowError):
             return False
 
@@ -729,8 +765,15 @@ class C14:
         p = dict(rec['payload']['__dict__'])
         g = p['guess']
         g = g['v'] if isinstance(g, dict) and '__npscalar__' in g else g
+        if isinstance(g, int) and not isinstance(g, bool):
+            # exact integer arithmetic on whole-number guesses can leave the
+            # float range
+            try:
+                g = float(g)
+            except OverflowError:
+                g = math.inf if g > 0 else -math.inf
         with np.errstate(all='ignore'):
-            want = self._ref_guess(t)
+            want = _fl(self._ref_guess(t))
         atol = 1e-12 * self._magnitude(t)
         same = (np.isclose(g, want, rtol=1e-12, atol=atol, equal_nan=True)
                 or g == want)
@@ -844,8 +887,10 @@ class _Unaligned(Exception):
 def apply_fn(fn, args):
     # numpy scalars: x / 0 gives inf / nan (as inside the library when a
     # numpy value is involved) instead of raising
-    args = [np.float64(a) if isinstance(a, (int, float)) and
-            not isinstance(a, bool) else a for a in args]
+    # (whole numbers stay Python ints: "the same operation applied to the
+    # base guess" is then exact integer / numpy-integer arithmetic, as in the
+    # library)
+    args = [np.float64(a) if isinstance(a, float) else a for a in args]
     with np.errstate(all='ignore'):
         if fn == 'add' or fn == 'ufunc:add':
             return args[0] + args[1]
